@@ -378,26 +378,33 @@ def parse_markdown(text):
     lines = _MD_LINES.split(text)
     if "### Details" in lines:
         k = lines.index("### Details")
-        if lines[k + 1:k + 2] != [""] or md_split_row(lines[k + 2] if k + 2 < len(lines) else "") != \
-                ["Status", "File", "Total", "Lines", "Limit", "Code", "Comment", "Blank", "Reason"] or not re.fullmatch(r"\|[:\-|]+\|", lines[k + 3] if k + 3 < len(lines) else ""):
+        need = ["Status", "File", "Total", "Lines", "Limit", "Code", "Comment", "Blank", "Reason"]
+        hdr = md_split_row(lines[k + 2] if k + 2 < len(lines) else "")
+        delim = lines[k + 3] if k + 3 < len(lines) else ""
+        # the nine columns the property speaks about must be there, under their names; further columns are the
+        # report's own business (a GFM table: header, delimiter row and every row have the same number of cells)
+        if lines[k + 1:k + 2] != [""] or hdr is None or any(hdr.count(n) != 1 for n in need) or not re.fullmatch(r"\|[:\-|]+\|", delim) \
+                or len(md_split_row(delim) or []) != len(hdr):
             raise Bad("markdown: Details table without its header / delimiter row")
+        col = {n: hdr.index(n) for n in need}
         for line in lines[k + 4:]:
             if line == "":
                 break
             cells = md_split_row(line)
-            if cells is None or len(cells) != 9:
-                raise Bad("markdown: Details table: line %r is not a row of 9 cells (%s)" % (line[:100], "no row" if cells is None else "%d cells" % len(cells)))
-            st = cells[0].split(" ")
+            if cells is None or len(cells) != len(hdr):
+                raise Bad("markdown: Details table: line %r is not a row of %d cells (%s)" % (line[:100], len(hdr), "no row" if cells is None else "%d cells" % len(cells)))
+            st = cells[col["Status"]].split(" ")
             if len(st) != 2 or st[0] not in _MD_ICON or st[1].lower() not in STATUS:
-                raise Bad("markdown: status cell %r" % cells[0][:40])
+                raise Bad("markdown: status cell %r" % cells[col["Status"]][:40])
             if _MD_ICON[st[0]] != st[1].lower():
                 raise Bad("markdown: icon and status word disagree")
-            if not all(re.fullmatch(r"\d+", c) for c in cells[2:8]):
-                raise Bad("markdown: a count cell is not a number: %r" % cells[2:8])
-            path = md_code_span(cells[1])
+            nums = [cells[col[n]] for n in ("Total", "Lines", "Limit", "Code", "Comment", "Blank")]
+            if not all(re.fullmatch(r"\d+", c) for c in nums):
+                raise Bad("markdown: a count cell is not a number: %r" % nums)
+            path = md_code_span(cells[col["File"]])
             entries.append((path, st[1].lower()))
-            rows.append({"path": path, "total": int(cells[2]), "sloc": int(cells[3]), "limit": int(cells[4]), "code": int(cells[5]),
-                         "comment": int(cells[6]), "blank": int(cells[7]), "reason": md_inline_text(cells[8])})
+            rows.append({"path": path, "total": int(nums[0]), "sloc": int(nums[1]), "limit": int(nums[2]), "code": int(nums[3]),
+                         "comment": int(nums[4]), "blank": int(nums[5]), "reason": md_inline_text(cells[col["Reason"]])})
     elif re.search(r"(?m)^\|.*(Passed|Warning|Failed|Grandfathered) \|", text.split("### Split Suggestions")[0].split("|------:|\n", 1)[-1].split("\n\n", 1)[-1]):
         raise Bad("markdown: result rows outside a Details table")
     return {"entries": entries, "summary": summ, "rows": rows}
